@@ -42,4 +42,58 @@ theorem foldl_map_state {σ τ : Type} (g : σ → τ) (f : σ → α → σ) (f
   | nil => rfl
   | cons a as ih => simp only [List.foldl_cons, ih, h]
 
+theorem forIn_range'_get {α β : Type} [Inhabited α] (xs : List α) (body : α → β → Go.M (ForInStep β)) :
+    ∀ (k : Nat) (b : β), k ≤ xs.length →
+    forIn (List.range' k (xs.length - k)) b (fun i st => do let v ← Go.listGet xs i; body v st)
+      = forIn (xs.drop k) b body := by
+  intro k
+  generalize hn : xs.length - k = n
+  induction n generalizing k with
+  | zero =>
+    intro b hk
+    have : xs.drop k = [] := List.drop_eq_nil_of_le (by omega)
+    simp [this]
+  | succ n ih =>
+    intro b hk
+    have hlt : k < xs.length := by omega
+    have hd : xs.drop k = xs[k] :: xs.drop (k + 1) := (List.drop_eq_getElem_cons hlt)
+    rw [hd, List.range'_succ, List.forIn_cons, List.forIn_cons]
+    have hg : Go.listGet xs k = pure xs[k] := by
+      unfold Go.listGet; simp [hlt]
+    rw [hg, pure_bind]
+    congr 1
+    funext r
+    cases r with
+    | done b' => rfl
+    | yield b' => exact ih (k + 1) (by omega) b' (by omega)
+
+
+/-- a loop that carries a state and may return early: one iteration either continues with a new
+state or leaves with a result -/
+def searchFold {α σ ρ : Type} (step : σ → α → Sum σ ρ) : σ → List α → Option ρ × σ
+  | s, [] => (none, s)
+  | s, a :: as =>
+    match step s a with
+    | .inl s' => searchFold step s' as
+    | .inr r => (some r, s)
+
+theorem forIn_searchFold {α σ ρ : Type} (body : α → Option ρ × σ → Go.M (ForInStep (Option ρ × σ)))
+    (step : σ → α → Sum σ ρ)
+    (h : ∀ a s, body a (none, s) = pure (match step s a with
+      | .inl s' => ForInStep.yield (none, s') | .inr r => ForInStep.done (some r, s)))
+    (xs : List α) (s : σ) : forIn xs (none, s) body = pure (searchFold step s xs) := by
+  induction xs generalizing s with
+  | nil => rfl
+  | cons a as ih =>
+    rw [List.forIn_cons, h a s]
+    unfold searchFold
+    cases step s a with
+    | inl s' => simpa using ih s'
+    | inr r => simp
+
+
+theorem listGet_zero {α : Type} [Inhabited α] (x : α) (xs : List α) : Go.listGet (x :: xs) 0 = pure x := by
+  simp [Go.listGet]
+
+
 end GoLoop
